@@ -155,6 +155,16 @@ def main(argv):
         # (a listed known finding met again during the search is not the failing input looked for)
         oracle = [r for r in agg2["fail"] if r["verdict"]["status"] == "oracle" and "known" not in r]
 
+    def is_known_case(case):
+        for k in known:
+            if k["kind"] == "known" and k["property"] == prop and "trigger" in k:
+                try:
+                    if mod.matches_known(k["trigger"], case):
+                        return True
+                except Exception:
+                    pass
+        return False
+
     rc = 0
     nviol = 0
     # listed known findings: one line per finding, never a violation
@@ -170,7 +180,7 @@ def main(argv):
             if sig in seen or len(seen) >= 3:
                 continue
             seen.add(sig)
-            small = core.shrink(mod, rec, "oracle")
+            small = core.shrink(mod, rec, "oracle", reject=is_known_case)
             v = report(prop, mod, small, "failing-input", {"broken": broken, "original_case": rec["case"]}, known, seed, tier)
             nviol += v
             rc = max(rc, v)
